@@ -50,6 +50,9 @@ type script struct {
 	MaxFetch  int64                `json:"max_fetch_bytes"`
 	Head      headSpec             `json:"head"`
 	Simple    string               `json:"simple_get"` // ok | 503 | reset  (whole-body GET when the fetcher falls back)
+	// SimpleChunked: the whole-body GET answer declares no Content-Length
+	// (chunked / streamed body): resp.ContentLength == -1.
+	SimpleChunked bool `json:"simple_get_without_content_length,omitempty"`
 	Attempts  map[string]behaviour `json:"attempts"`   // "chunk/attempt#" -> behaviour; missing = 206-exact rank 1
 	Seed      uint64               `json:"resource_seed"`
 }
@@ -178,13 +181,18 @@ func (rt *scriptRT) RoundTrip(req *http.Request) (*http.Response, error) {
 		if rt.sc.Head.Kind == "zstd" {
 			hdr["Content-Encoding"] = "zstd"
 		}
+		declared := total
+		if rt.sc.SimpleChunked {
+			declared = -1
+		}
 		switch rt.sc.Simple {
 		case "503":
 			return rt.resp(req, 503, bytes.NewReader(nil), 0, nil), nil
 		case "reset":
-			return rt.resp(req, 200, &failingReader{data: rt.served[:len(rt.served)/2]}, total, hdr), nil
+			return rt.resp(req, 200, &failingReader{data: rt.served[:len(rt.served)/2]}, declared, hdr), nil
 		}
-		return rt.resp(req, 200, bytes.NewReader(rt.served), total, hdr), nil
+		// hide WriterTo/Len so the body is consumed through Read like a socket
+		return rt.resp(req, 200, struct{ io.Reader }{bytes.NewReader(rt.served)}, declared, hdr), nil
 	}
 	m := rangeRe.FindStringSubmatch(rg)
 	if m == nil {
